@@ -17,12 +17,17 @@ EXTENDS PlanGen
 
 CONSTANTS NDB      \* number of additional databases per plan
 
+\* PlanGen's Mix is affine in both arguments, so two sub-seeds MixS(sd, j), MixS(sd, k) of one seed differ by a constant and the
+\* choices drawn from them are correlated (e.g. join type and LIMIT count).  The generators of this directory derive their
+\* sub-seeds through a squaring step (46336^2 < 2^31).
+MixS(sd, k) == LET x == Mix(sd, k) IN (x * x + 101 * k + sd) % M
+
 (* ---------------- expressions with a bias to rewrite-relevant predicates ---------------- *)
 \* a one-column predicate that is NOT null-rejecting / is null-rejecting, over column c of kind k
 ColPred(c, k, sd) ==
   LET x == Col(c)
-      l == GenLit(k, Mix(sd, 1))
-      ch == Rnd(Mix(sd, 2), 10) + 1 IN
+      l == GenLit(k, MixS(sd, 1))
+      ch == Rnd(MixS(sd, 2), 10) + 1 IN
   CASE ch = 1 -> Un("isnull", x)
     [] ch = 2 -> Un("isnotnull", x)
     [] ch = 3 -> Bin("=", Coalesce(<<x, l>>), l)
@@ -31,117 +36,341 @@ ColPred(c, k, sd) ==
     [] ch = 6 -> Bin("isnotdistinct", x, l)
     [] ch = 7 -> Bin("or", Bin("<", x, l), Un("isnull", x))
     [] ch = 8 -> Un("not", Bin(">=", x, l))
-    [] OTHER -> Bin(PickSeq(<<"=", "<>", "<", ">=">>, Mix(sd, 3)), x, l)
+    [] OTHER -> Bin(PickSeq(<<"=", "<>", "<", ">=">>, MixS(sd, 3)), x, l)
 
 \* predicate for a filter: generic random expression, or a one-column predicate, or a constant
 FilterPred(sch, sd) ==
-  LET ch == Rnd(Mix(sd, 1), 100)
-      c == Rnd(Mix(sd, 2), Len(sch)) + 1 IN
-  IF ch < 45 THEN GenE("b", EDEPTH, sch, <<>>, Mix(sd, 3))
-  ELSE IF ch < 85 /\ sch[c] \in {"i", "s"} THEN ColPred(c, sch[c], Mix(sd, 4))
-  ELSE IF ch < 92 /\ sch[c] \in {"i", "s"} THEN Bin("and", ColPred(c, sch[c], Mix(sd, 4)), GenE("b", 1, sch, <<>>, Mix(sd, 5)))
+  LET ch == Rnd(MixS(sd, 1), 100)
+      c == Rnd(MixS(sd, 2), Len(sch)) + 1 IN
+  IF ch < 45 THEN GenE("b", EDEPTH, sch, <<>>, MixS(sd, 3))
+  ELSE IF ch < 85 /\ sch[c] \in {"i", "s"} THEN ColPred(c, sch[c], MixS(sd, 4))
+  ELSE IF ch < 92 /\ sch[c] \in {"i", "s"} THEN Bin("and", ColPred(c, sch[c], MixS(sd, 4)), GenE("b", 1, sch, <<>>, MixS(sd, 5)))
   ELSE IF ch < 96 /\ sch[c] = "b" THEN Col(c)
   ELSE PickSeq(<<LitT(FalseV, "b"), LitT(TrueV, "b"), LitT(Null, "b"),
-                 Bin("=", LitT(I(1), "i"), LitT(I(0), "i"))>>, Mix(sd, 6))
+                 Bin("=", LitT(I(1), "i"), LitT(I(0), "i"))>>, MixS(sd, 6))
 
 \* scalar subquery expression (global aggregate over a possibly correlated, possibly filtered scan)
 ScalarSubE(sch, sd) ==
-  LET t == Rnd(Mix(sd, 1), NT) + 1
+  LET t == Rnd(MixS(sd, 1), NT) + 1
       tsch == Schemas[t]
-      tcol == Col(PickCol(tsch, "i", Mix(sd, 2)))
-      correlated == ColsOf(sch, "i") # {} /\ Chance(70, Mix(sd, 4))
-      corr == IF correlated THEN Bin("=", tcol, [op |-> "outer", i |-> PickCol(sch, "i", Mix(sd, 3))])
-              ELSE GenE("b", 1, tsch, <<>>, Mix(sd, 5))
-      base == IF correlated \/ Chance(60, Mix(sd, 6)) THEN [op |-> "filter", p |-> corr, src |-> [op |-> "scan", t |-> t]]
+      tcol == Col(PickCol(tsch, "i", MixS(sd, 2)))
+      correlated == ColsOf(sch, "i") # {} /\ Chance(70, MixS(sd, 4))
+      corr == IF correlated THEN Bin("=", tcol, [op |-> "outer", i |-> PickCol(sch, "i", MixS(sd, 3))])
+              ELSE GenE("b", 1, tsch, <<>>, MixS(sd, 5))
+      base == IF correlated \/ Chance(60, MixS(sd, 6)) THEN [op |-> "filter", p |-> corr, src |-> [op |-> "scan", t |-> t]]
               ELSE [op |-> "scan", t |-> t]
-      f == PickSeq(<<"count", "countstar", "sum", "min", "max", "count">>, Mix(sd, 11)) IN
+      f == PickSeq(<<"count", "countstar", "sum", "min", "max", "count">>, MixS(sd, 11)) IN
   [op |-> "scalarsub", sub |-> [op |-> "agg", keys |-> <<>>,
-       aggs |-> <<[f |-> f, e |-> IF f = "countstar" THEN LitT(I(1), "i") ELSE Col(PickCol(tsch, "i", Mix(sd, 9))),
+       aggs |-> <<[f |-> f, e |-> IF f = "countstar" THEN LitT(I(1), "i") ELSE Col(PickCol(tsch, "i", MixS(sd, 9))),
                    distinct |-> FALSE]>>,
        src |-> base]]
 
 (* ---------------- plans ---------------- *)
-RECURSIVE GenS(_, _)
-GenS(d, sd) ==
+\* e <cmp> ANY / ALL (one-column subquery), uncorrelated or correlated on one column
+QuantPred(sch, sd) ==
+  LET t == Rnd(MixS(sd, 1), NT) + 1
+      tsch == Schemas[t]
+      tcol == Col(PickCol(tsch, "i", MixS(sd, 2)))
+      correlated == Chance(35, MixS(sd, 4))
+      corr == IF correlated THEN Bin("=", tcol, [op |-> "outer", i |-> PickCol(sch, "i", MixS(sd, 3))])
+              ELSE GenE("b", 1, tsch, <<>>, MixS(sd, 5))
+      base == IF correlated \/ Chance(50, MixS(sd, 6)) THEN [op |-> "filter", p |-> corr, src |-> [op |-> "scan", t |-> t]]
+              ELSE [op |-> "scan", t |-> t] IN
+  [op |-> "quant", f |-> PickSeq(<<"=", "<>", "<", "<=", ">", ">=">>, MixS(sd, 7)), all |-> Chance(50, MixS(sd, 8)),
+   e |-> Col(PickCol(sch, "i", MixS(sd, 9))),
+   sub |-> [op |-> "project", es |-> <<Col(PickCol(tsch, "i", MixS(sd, 10)))>>, src |-> base]]
+
+\* expressions that repeat one partial (division) subexpression inside conditional branches: CASE / COALESCE are lazy in
+\* the reference, so a rewrite that evaluates the shared subexpression unconditionally shows as an evaluation error
+CseExprs(sch, sd) ==
+  LET x == IF ColsOf(sch, "i") # {} THEN Col(PickCol(sch, "i", MixS(sd, 1))) ELSE LitT(I(1), "i")
+      y == IF ColsOf(sch, "i") # {} THEN Col(PickCol(sch, "i", MixS(sd, 2))) ELSE LitT(I(0), "i")
+      A == Bin(PickSeq(<<"/", "%", "/">>, MixS(sd, 3)), x, y)
+      P == Bin("<>", y, LitT(I(0), "i"))
+      Z == LitT(Null, "i") IN
+  << CaseE(<< <<P, A>> >>, LitT(I(0), "i")),
+     CaseE(<< <<P, Bin("+", A, LitT(I(1), "i"))>> >>, Z),
+     Coalesce(<<CaseE(<< <<P, A>> >>, Z), LitT(I(2), "i")>>),
+     CaseE(<< <<P, Bin(">", A, LitT(I(0), "i"))>> >>, LitT(FalseV, "b")),
+     CaseE(<< <<Bin("and", P, Un("isnotnull", x)), Bin("*", A, A)>> >>, x) >>
+
+AllColsKeys(w, sd) == [j \in 1..w |-> [i |-> j, asc |-> Chance(50, MixS(sd, 20 + j)), nf |-> Chance(50, MixS(sd, 30 + j))]]
+
+RECURSIVE GenSC(_, _, _)
+GenS(d, sd) == GenSC(d, sd, 0)
+\* forced > 0 fixes the operator chosen at this level (quota of shapes per run, see Focus below)
+GenSC(d, sd, forced) ==
   IF d = 0 THEN Scan(Rnd(sd, NT) + 1)
   ELSE
-    LET c == Rnd(Mix(sd, 1), 24) + 1
-        s == GenS(d - 1, Mix(sd, 2))
-        r0 == GenS(IF Chance(65, Mix(sd, 3)) THEN 0 ELSE d - 1, Mix(sd, 4)) IN
+    LET c == IF forced > 0 THEN forced ELSE Rnd(MixS(sd, 1), 47) + 1
+        s == GenSC(d - 1, MixS(sd, 2), 0)
+        r0 == GenSC(IF Chance(65, MixS(sd, 3)) THEN 0 ELSE d - 1, MixS(sd, 4), 0)
+        w == Len(s.sch)
+        icol(k) == IF ColsOf(s.sch, "i") # {} THEN PickCol(s.sch, "i", MixS(sd, k)) ELSE 0 IN
     CASE c \in {1, 2, 3, 4, 5} ->
-           IF ColsOf(s.sch, "i") # {} /\ Has("subquery") /\ Chance(35, Mix(sd, 5))
-             THEN [p |-> [op |-> "filter", p |-> SubPred(s.sch, Mix(sd, 6)), src |-> s.p], sch |-> s.sch]
-             ELSE [p |-> [op |-> "filter", p |-> FilterPred(s.sch, Mix(sd, 6)), src |-> s.p], sch |-> s.sch]
+           IF ColsOf(s.sch, "i") # {} /\ Has("quant") /\ Chance(12, MixS(sd, 7))
+             THEN [p |-> [op |-> "filter", p |-> QuantPred(s.sch, MixS(sd, 6)), src |-> s.p], sch |-> s.sch]
+           ELSE IF ColsOf(s.sch, "i") # {} /\ Has("subquery") /\ Chance(35, MixS(sd, 5))
+             THEN [p |-> [op |-> "filter", p |-> SubPred(s.sch, MixS(sd, 6)), src |-> s.p], sch |-> s.sch]
+             ELSE [p |-> [op |-> "filter", p |-> FilterPred(s.sch, MixS(sd, 6)), src |-> s.p], sch |-> s.sch]
+      [] c = 33 /\ Has("quant") /\ ColsOf(s.sch, "i") # {} ->
+           [p |-> [op |-> "filter", p |-> QuantPred(s.sch, MixS(sd, 6)), src |-> s.p], sch |-> s.sch]
+      [] c = 23 /\ Has("window") ->
+           LET f0 == PickSeq(<<"rank", "dense_rank", "row_number", "sum", "count", "min", "max", "countstar", "rank", "sum">>, MixS(sd, 5))
+               f == IF f0 \in {"sum", "count", "min", "max"} /\ icol(6) = 0 THEN "countstar" ELSE f0
+               np == Rnd(MixS(sd, 7), 3)
+               part == [j \in 1..np |-> Rnd(MixS(sd, 40 + j), w) + 1]
+               order == IF f = "row_number" THEN AllColsKeys(w, MixS(sd, 8))
+                        ELSE IF f \in {"rank", "dense_rank"} \/ Chance(50, MixS(sd, 9))
+                          THEN [j \in 1..(Rnd(MixS(sd, 10), 2) + 1) |->
+                                  [i |-> Rnd(MixS(sd, 50 + j), w) + 1, asc |-> Chance(50, MixS(sd, 60 + j)), nf |-> Chance(50, MixS(sd, 70 + j))]]
+                          ELSE <<>> IN
+           [p |-> [op |-> "window", f |-> f, part |-> part, order |-> order,
+                   arg |-> IF f \in {"sum", "count", "min", "max"} THEN icol(6) ELSE 0, src |-> s.p],
+            sch |-> Append(s.sch, "i")]
+      [] c = 24 /\ Has("lateral") /\ ColsOf(s.sch, "i") # {} ->
+           LET t == Rnd(MixS(sd, 5), NT) + 1
+               tsch == Schemas[t]
+               corr0 == Bin("=", Col(PickCol(tsch, "i", MixS(sd, 6))), [op |-> "outer", i |-> icol(7)])
+               corr == IF Chance(30, MixS(sd, 8)) THEN Bin("and", corr0, GenE("b", 1, tsch, <<>>, MixS(sd, 9))) ELSE corr0
+               base == [op |-> "filter", p |-> corr, src |-> [op |-> "scan", t |-> t]]
+               ch == Rnd(MixS(sd, 10), 3)
+               ag == PickSeq(<<"count", "countstar", "sum", "min", "max", "count">>, MixS(sd, 11))
+               r == IF ch = 0 THEN [p |-> base, sch |-> tsch]
+                    ELSE IF ch = 1 THEN [p |-> [op |-> "project", es |-> <<Col(PickCol(tsch, "i", MixS(sd, 12))), GenE("i", 1, tsch, <<>>, MixS(sd, 13))>>, src |-> base],
+                                         sch |-> <<"i", "i">>]
+                    ELSE [p |-> [op |-> "agg", keys |-> <<>>, src |-> base,
+                                 aggs |-> <<[f |-> ag, e |-> IF ag = "countstar" THEN LitT(I(1), "i") ELSE Col(PickCol(tsch, "i", MixS(sd, 12))), distinct |-> FALSE]>>],
+                          sch |-> <<"i">>] IN
+           [p |-> [op |-> "lateral", jt |-> PickSeq(<<"inner", "left">>, MixS(sd, 14)), l |-> s.p, r |-> r.p, lw |-> w, rw |-> Len(r.sch)],
+            sch |-> s.sch \o r.sch]
+      [] c = 25 /\ Has("having") /\ Has("agg") ->
+           LET nk == Rnd(MixS(sd, 5), 3)
+               kks == [j \in 1..nk |-> PickSeq(KindSeq, MixS(sd, 20 + j))]
+               keys == [j \in 1..nk |-> GenE(kks[j], 0, s.sch, <<>>, MixS(sd, 30 + j))]
+               as == [j \in 1..(Rnd(MixS(sd, 6), 2) + 1) |-> GenAgg(s.sch, MixS(sd, 50 + j))]
+               osch == kks \o [j \in 1..Len(as) |-> as[j].k] IN
+           [p |-> [op |-> "filter", having |-> TRUE, p |-> FilterPred(osch, MixS(sd, 7)),
+                   src |-> [op |-> "agg", keys |-> keys, aggs |-> [j \in 1..Len(as) |-> as[j].a], src |-> s.p]],
+            sch |-> osch]
+      [] c = 26 /\ Has("sets") /\ Has("agg") ->
+           LET nk == IF w >= 3 /\ Chance(40, MixS(sd, 5)) THEN 3 ELSE 2
+               kc == [j \in 1..nk |-> Rnd(MixS(sd, 20 + j), w) + 1]
+               sets == IF nk = 3 THEN PickSeq(<< <<{1, 2, 3}, {1, 2}, {1}>>, <<{1}, {2, 3}>>, <<{1, 2}, {3}, {1, 2, 3}>> >>, MixS(sd, 6))
+                       ELSE PickSeq(<< <<{1, 2}, {1}>>, <<{1}, {2}>>, <<{1, 2}, {2}, {1}>> >>, MixS(sd, 6))
+               as == [j \in 1..(Rnd(MixS(sd, 7), 2) + 1) |-> GenAgg(s.sch, MixS(sd, 50 + j))] IN
+           [p |-> [op |-> "aggsets", keys |-> [j \in 1..nk |-> Col(kc[j])], sets |-> sets, aggs |-> [j \in 1..Len(as) |-> as[j].a], src |-> s.p],
+            sch |-> [j \in 1..nk |-> s.sch[kc[j]]] \o [j \in 1..Len(as) |-> as[j].k]]
+      [] c = 27 /\ Has("distincton") ->
+           [p |-> [op |-> "distincton", n |-> IF w = 1 THEN 1 ELSE Rnd(MixS(sd, 5), w - 1) + 1, src |-> s.p], sch |-> s.sch]
+      [] c \in {28, 34, 35} /\ Has("pack") ->
+           LET pk == [op |-> "pack", src |-> s.p]
+               ch == IF c = 28 THEN 0 ELSE IF c = 34 THEN 1 ELSE 2
+               ks == [j \in 1..(Rnd(MixS(sd, 6), 2) + 1) |-> PickSeq(KindSeq, MixS(sd, 20 + j))]
+               ga == GenAgg(s.sch, MixS(sd, 8))
+               kc == Rnd(MixS(sd, 9), w) + 1 IN
+           IF ch = 0 THEN [p |-> [op |-> "filter", p |-> FilterPred(s.sch, MixS(sd, 7)), src |-> pk], sch |-> s.sch]
+           ELSE IF ch = 1 THEN [p |-> [op |-> "project", es |-> [j \in 1..Len(ks) |-> GenE(ks[j], 1, s.sch, <<>>, MixS(sd, 30 + j))], src |-> pk], sch |-> ks]
+           ELSE [p |-> [op |-> "agg", keys |-> <<Col(kc)>>, aggs |-> <<ga.a>>, src |-> pk], sch |-> <<s.sch[kc], ga.k>>]
+      \* ---- shapes that make one particular rewrite applicable (used through Focus; reachable at random too) ----
+      [] c = 36 /\ Has("join") /\ ColsOf(s.sch, "i") # {} /\ ColsOf(r0.sch, "i") # {} ->
+           \* null-rejecting filter on the null-supplying side of an outer join (outer-join elimination)
+           LET lw == w  rw == Len(r0.sch)
+               jt == PickSeq(<<"left", "right", "full">>, MixS(sd, 5))
+               lk == icol(6)  rk == lw + PickCol(r0.sch, "i", MixS(sd, 7))
+               cx == IF jt = "left" THEN rk ELSE IF jt = "right" THEN lk ELSE PickSeq(<<lk, rk>>, MixS(sd, 8))
+               pr == PickSeq(<<Bin(">=", Col(cx), LitT(I(0), "i")), Un("isnotnull", Col(cx)), Bin("=", Col(cx), Col(IF cx = lk THEN rk ELSE lk)),
+                               Bin("or", Bin("<", Col(cx), LitT(I(1), "i")), Un("isnull", Col(cx))), Un("isnull", Col(cx))>>, MixS(sd, 9)) IN
+           [p |-> [op |-> "filter", p |-> pr,
+                   src |-> [op |-> "join", jt |-> jt, on |-> Bin("=", Col(lk), Col(rk)), l |-> s.p, r |-> r0.p, lw |-> lw, rw |-> rw]],
+            sch |-> s.sch \o r0.sch]
+      [] c = 37 /\ Has("join") /\ ColsOf(s.sch, "i") # {} /\ ColsOf(r0.sch, "i") # {} ->
+           \* keyless inner join with the join predicate in a filter above it (cross-join elimination)
+           LET lw == w  rw == Len(r0.sch)
+               eq == Bin("=", Col(icol(6)), Col(lw + PickCol(r0.sch, "i", MixS(sd, 7))))
+               pr == IF Chance(50, MixS(sd, 8)) THEN Bin("and", eq, FilterPred(s.sch \o r0.sch, MixS(sd, 9))) ELSE eq IN
+           [p |-> [op |-> "filter", p |-> pr,
+                   src |-> [op |-> "join", jt |-> "inner", on |-> LitT(TrueV, "b"), l |-> s.p, r |-> r0.p, lw |-> lw, rw |-> rw]],
+            sch |-> s.sch \o r0.sch]
+      [] c = 38 /\ Has("agg") /\ ColsOf(s.sch, "i") # {} ->
+           \* one DISTINCT aggregate (single-distinct -> group by), alone or next to a second aggregate
+           LET x == Col(icol(5))
+               nk == Rnd(MixS(sd, 6), 2)
+               kc == [j \in 1..nk |-> Rnd(MixS(sd, 20 + j), w) + 1]
+               d1 == [f |-> PickSeq(<<"count", "sum">>, MixS(sd, 7)), e |-> x, distinct |-> TRUE]
+               d2 == PickSeq(<<[f |-> "countstar", e |-> LitT(I(1), "i"), distinct |-> FALSE], [f |-> "max", e |-> x, distinct |-> FALSE],
+                               [f |-> "count", e |-> x, distinct |-> TRUE]>>, MixS(sd, 8))
+               as == IF Chance(50, MixS(sd, 9)) THEN <<d1>> ELSE <<d1, d2>> IN
+           [p |-> [op |-> "agg", keys |-> [j \in 1..nk |-> Col(kc[j])], aggs |-> as, src |-> s.p],
+            sch |-> [j \in 1..nk |-> s.sch[kc[j]]] \o [j \in 1..Len(as) |-> "i"]]
+      [] c = 39 /\ Has("subquery") ->
+           [p |-> [op |-> "project", es |-> <<Col(Rnd(MixS(sd, 5), w) + 1), ScalarSubE(s.sch, MixS(sd, 8))>>, src |-> s.p],
+            sch |-> <<s.sch[Rnd(MixS(sd, 5), w) + 1], "i">>]
+      [] c = 40 /\ Has("agg") ->
+           \* constant and duplicated grouping keys
+           LET k1 == Rnd(MixS(sd, 5), w) + 1
+               ga == GenAgg(s.sch, MixS(sd, 6))
+               keys == PickSeq(<< <<LitT(I(1), "i"), Col(k1)>>, <<Col(k1), Col(k1)>>, <<Col(k1), LitT(S(1), "s"), Col(k1)>> >>, MixS(sd, 7))
+               kk(e) == IF e.op = "lit" THEN e.t ELSE s.sch[k1] IN
+           [p |-> [op |-> "agg", keys |-> keys, aggs |-> <<ga.a>>, src |-> s.p], sch |-> [j \in 1..Len(keys) |-> kk(keys[j])] \o <<ga.k>>]
+      [] c = 42 /\ Has("join") ->
+           \* a join that can never match / an input that is empty (join elimination, empty-relation propagation)
+           LET lw == w  rw == Len(r0.sch)
+               jt == PickSeq(<<"inner", "left", "right", "full", "semi", "anti">>, MixS(sd, 5))
+               ch == Rnd(MixS(sd, 6), 3)
+               fe == PickSeq(<<LitT(FalseV, "b"), LitT(Null, "b"), Bin("=", LitT(I(1), "i"), LitT(I(0), "i"))>>, MixS(sd, 7))
+               l2 == IF ch = 1 THEN [op |-> "filter", p |-> fe, src |-> s.p] ELSE s.p
+               r2 == IF ch = 2 THEN [op |-> "filter", p |-> fe, src |-> r0.p] ELSE r0.p
+               on == IF ch = 0 THEN fe ELSE LitT(TrueV, "b") IN
+           [p |-> [op |-> "join", jt |-> jt, on |-> on, l |-> l2, r |-> r2, lw |-> lw, rw |-> rw],
+            sch |-> IF jt \in {"semi", "anti"} THEN s.sch ELSE s.sch \o r0.sch]
+      [] c = 44 /\ Has("setop") ->
+           \* nested unions (flattening), one branch possibly empty
+           LET br(k) == [op |-> "project", es |-> [j \in 1..w |-> GenE(s.sch[j], 0, s.sch, <<>>, MixS(sd, 30 * k + j))], src |-> s.p]
+               al == Chance(60, MixS(sd, 5))
+               b3 == IF Chance(30, MixS(sd, 6)) THEN [op |-> "filter", p |-> LitT(FalseV, "b"), src |-> br(3)] ELSE br(3) IN
+           [p |-> [op |-> "setop", f |-> "union", all |-> al,
+                   l |-> [op |-> "setop", f |-> "union", all |-> al, l |-> s.p, r |-> br(2)], r |-> b3], sch |-> s.sch]
+      [] c = 45 ->
+           [p |-> [op |-> "filter", p |-> PickSeq(<<LitT(FalseV, "b"), LitT(TrueV, "b"), LitT(Null, "b"), Bin("=", LitT(I(1), "i"), LitT(I(0), "i")),
+                                                   Bin("or", LitT(TrueV, "b"), FilterPred(s.sch, MixS(sd, 6)))>>, MixS(sd, 5)), src |-> s.p], sch |-> s.sch]
+      [] c = 46 /\ Has("subquery") /\ ColsOf(s.sch, "i") # {} ->
+           [p |-> [op |-> "filter", p |-> SubPred(s.sch, MixS(sd, 6)), src |-> s.p], sch |-> s.sch]
+      [] c = 47 /\ Has("pack") /\ Has("join") /\ ColsOf(s.sch, "i") # {} /\ ColsOf(r0.sch, "i") # {} ->
+           \* join whose inputs are struct columns: the ON clause reads fields of columns of both sides
+           LET lw == w  rw == Len(r0.sch)
+               both == s.sch \o r0.sch
+               eq == Bin(PickSeq(<<"=", "=", "<">>, MixS(sd, 5)), Col(icol(6)), Col(lw + PickCol(r0.sch, "i", MixS(sd, 7))))
+               on == IF Chance(40, MixS(sd, 8)) THEN Bin("and", eq, GenE("b", 1, both, <<>>, MixS(sd, 9))) ELSE eq
+               jt == PickSeq(<<"inner", "left", "right", "full", "semi", "anti">>, MixS(sd, 10)) IN
+           [p |-> [op |-> "join", jt |-> jt, on |-> on, l |-> [op |-> "pack", src |-> s.p], r |-> [op |-> "pack", src |-> r0.p], lw |-> lw, rw |-> rw],
+            sch |-> IF jt \in {"semi", "anti"} THEN s.sch ELSE both]
+      [] c = 29 /\ Has("tlimit") ->
+           \* a LIMIT over a total ORDER BY is a deterministic bag: allowed inside a plan
+           [p |-> [op |-> "limit", skip |-> Rnd(MixS(sd, 5), 2), fetch |-> Rnd(MixS(sd, 6), 3) + 1,
+                   src |-> [op |-> "sort", keys |-> AllColsKeys(w, MixS(sd, 7)), src |-> s.p]], sch |-> s.sch]
+      [] c = 30 /\ Has("cse") /\ Has("case") /\ Has("arith") ->
+           LET ce == CseExprs(s.sch, MixS(sd, 5))
+               pick == PickSeq(<< <<1, 2>>, <<1, 3, 4>>, <<2, 5, 1>>, <<4, 1>>, <<3, 5>> >>, MixS(sd, 6))
+               kind(j) == IF j = 4 THEN "b" ELSE "i" IN
+           IF Chance(25, MixS(sd, 7)) THEN [p |-> [op |-> "filter", p |-> Bin("and", ce[4], Bin(">=", ce[1], LitT(I(0), "i"))), src |-> s.p], sch |-> s.sch]
+           ELSE [p |-> [op |-> "project", es |-> [j \in 1..Len(pick) |-> ce[pick[j]]], src |-> s.p], sch |-> [j \in 1..Len(pick) |-> kind(pick[j])]]
+      [] c \in {31, 32} /\ Has("join") /\ ColsOf(s.sch, "i") # {} /\ ColsOf(r0.sch, "i") # {} ->
+           LET lw == w  rw == Len(r0.sch)
+               both == s.sch \o r0.sch
+               lk == icol(6)  rk == lw + PickCol(r0.sch, "i", MixS(sd, 7))
+               eq == Bin("=", Col(lk), Col(rk))
+               jt == PickSeq(<<"inner", "left", "right", "full">>, MixS(sd, 10))
+               cx == IF Chance(50, MixS(sd, 11)) THEN lk ELSE rk
+               on == IF c = 32 THEN Bin("and", eq, ColPred(cx, "i", MixS(sd, 9))) ELSE eq
+               j == [op |-> "join", jt |-> jt, on |-> on, l |-> s.p, r |-> r0.p, lw |-> lw, rw |-> rw]
+               side == Chance(50, MixS(sd, 12)) IN
+           IF c = 31
+             THEN \* only one side of the join is used above it
+                  LET cols == IF side THEN [k \in 1..lw |-> Col(k)] ELSE [k \in 1..rw |-> Col(lw + k)] IN
+                  [p |-> [op |-> "project", es |-> cols, src |-> j], sch |-> IF side THEN s.sch ELSE r0.sch]
+             ELSE \* a filter on the column the join filter already constrains (equal / contradicting / overlapping)
+                  [p |-> [op |-> "filter", p |-> ColPred(cx, "i", MixS(sd, 13)), src |-> j], sch |-> both]
       [] c \in {6, 7} ->
-           LET ks == [j \in 1..(Rnd(Mix(sd, 5), 3) + 1) |-> PickSeq(KindSeq, Mix(sd, 20 + j))]
-               es == [j \in 1..Len(ks) |-> GenE(ks[j], EDEPTH, s.sch, <<>>, Mix(sd, 30 + j))]
-               withSub == Has("subquery") /\ Chance(35, Mix(sd, 7)) IN
-           [p |-> [op |-> "project", es |-> IF withSub THEN Append(es, ScalarSubE(s.sch, Mix(sd, 8))) ELSE es, src |-> s.p],
+           LET ks == [j \in 1..(Rnd(MixS(sd, 5), 3) + 1) |-> PickSeq(KindSeq, MixS(sd, 20 + j))]
+               es == [j \in 1..Len(ks) |-> GenE(ks[j], EDEPTH, s.sch, <<>>, MixS(sd, 30 + j))]
+               withSub == Has("subquery") /\ Chance(35, MixS(sd, 7)) IN
+           [p |-> [op |-> "project", es |-> IF withSub THEN Append(es, ScalarSubE(s.sch, MixS(sd, 8))) ELSE es, src |-> s.p],
             sch |-> IF withSub THEN Append(ks, "i") ELSE ks]
       [] c \in {8, 9, 10, 11, 12, 13} /\ Has("join") ->
            LET lw == Len(s.sch)  rw == Len(r0.sch)
                both == s.sch \o r0.sch
                eq == IF ColsOf(s.sch, "i") # {} /\ ColsOf(r0.sch, "i") # {}
-                       THEN Bin(PickSeq(<<"=", "=", "=", "=", "<", "isnotdistinct">>, Mix(sd, 5)),
-                                Col(PickCol(s.sch, "i", Mix(sd, 6))), Col(lw + PickCol(r0.sch, "i", Mix(sd, 7))))
+                       THEN Bin(PickSeq(<<"=", "=", "=", "=", "<", "isnotdistinct">>, MixS(sd, 5)),
+                                Col(PickCol(s.sch, "i", MixS(sd, 6))), Col(lw + PickCol(r0.sch, "i", MixS(sd, 7))))
                        ELSE LitT(TrueV, "b")
-               cx == Rnd(Mix(sd, 11), Len(both)) + 1
-               extra == IF Chance(50, Mix(sd, 12)) /\ both[cx] \in {"i", "s"}
-                          THEN ColPred(cx, both[cx], Mix(sd, 9))
-                          ELSE GenE("b", 1, both, <<>>, Mix(sd, 9))
-               ch == Rnd(Mix(sd, 8), 100)
+               cx == Rnd(MixS(sd, 11), Len(both)) + 1
+               extra == IF Chance(50, MixS(sd, 12)) /\ both[cx] \in {"i", "s"}
+                          THEN ColPred(cx, both[cx], MixS(sd, 9))
+                          ELSE GenE("b", 1, both, <<>>, MixS(sd, 9))
+               ch == Rnd(MixS(sd, 8), 100)
                on == IF ch < 40 THEN Bin("and", eq, extra)
                      ELSE IF ch < 45 THEN LitT(FalseV, "b")
                      ELSE IF ch < 50 THEN extra
                      ELSE eq
-               jt == PickSeq(<<"inner", "left", "right", "full", "semi", "anti", "left", "right", "full">>, Mix(sd, 10)) IN
+               jt == PickSeq(<<"inner", "left", "right", "full", "semi", "anti", "left", "right", "full">>, MixS(sd, 10)) IN
            [p |-> [op |-> "join", jt |-> jt, on |-> on, l |-> s.p, r |-> r0.p, lw |-> lw, rw |-> rw],
             sch |-> IF jt \in {"semi", "anti"} THEN s.sch ELSE both]
       [] c \in {14, 15, 16, 17} /\ Has("agg") ->
-           LET nk == Rnd(Mix(sd, 5), 3)
-               kks == [j \in 1..nk |-> PickSeq(KindSeq, Mix(sd, 20 + j))]
-               keys == [j \in 1..nk |-> GenE(kks[j], IF Chance(70, Mix(sd, 40 + j)) THEN 0 ELSE 1, s.sch, <<>>, Mix(sd, 30 + j))]
-               as == [j \in 1..(Rnd(Mix(sd, 6), 3) + 1) |-> GenAgg(s.sch, Mix(sd, 50 + j))] IN
+           LET nk == Rnd(MixS(sd, 5), 3)
+               kks == [j \in 1..nk |-> PickSeq(KindSeq, MixS(sd, 20 + j))]
+               keys == [j \in 1..nk |-> GenE(kks[j], IF Chance(70, MixS(sd, 40 + j)) THEN 0 ELSE 1, s.sch, <<>>, MixS(sd, 30 + j))]
+               as == [j \in 1..(Rnd(MixS(sd, 6), 3) + 1) |-> GenAgg(s.sch, MixS(sd, 50 + j))] IN
            [p |-> [op |-> "agg", keys |-> keys, aggs |-> [j \in 1..Len(as) |-> as[j].a], src |-> s.p],
             sch |-> kks \o [j \in 1..Len(as) |-> as[j].k]]
       [] c \in {18, 19} /\ Has("distinct") -> [p |-> [op |-> "distinct", src |-> s.p], sch |-> s.sch]
+      [] c \in {20, 21} /\ Has("setop") /\ ColsOf(s.sch, "i") # {} /\ ColsOf(r0.sch, "i") # {} /\ Chance(50, MixS(sd, 7)) ->
+           \* one narrow integer column on both sides: duplicates and common rows are frequent (multiplicities matter for ALL)
+           [p |-> [op |-> "setop", f |-> PickSeq(<<"union", "intersect", "except">>, MixS(sd, 5)), all |-> Chance(60, MixS(sd, 6)),
+                   l |-> [op |-> "project", es |-> <<Col(PickCol(s.sch, "i", MixS(sd, 8)))>>, src |-> s.p],
+                   r |-> [op |-> "project", es |-> <<Col(PickCol(r0.sch, "i", MixS(sd, 9)))>>, src |-> r0.p]],
+            sch |-> <<"i">>]
       [] c \in {20, 21} /\ Has("setop") ->
-           LET r == [op |-> "project", es |-> [j \in 1..Len(s.sch) |-> GenE(s.sch[j], 1, r0.sch, <<>>, Mix(sd, 30 + j))], src |-> r0.p] IN
-           [p |-> [op |-> "setop", f |-> PickSeq(<<"union", "intersect", "except">>, Mix(sd, 5)), all |-> Chance(50, Mix(sd, 6)),
+           LET r == [op |-> "project", es |-> [j \in 1..Len(s.sch) |-> GenE(s.sch[j], 1, r0.sch, <<>>, MixS(sd, 30 + j))], src |-> r0.p] IN
+           [p |-> [op |-> "setop", f |-> PickSeq(<<"union", "intersect", "except">>, MixS(sd, 5)), all |-> Chance(50, MixS(sd, 6)),
                    l |-> s.p, r |-> r], sch |-> s.sch]
       [] c = 22 /\ Has("setop") ->
-           \* UNION [ALL] of two filters over the same table (unions-to-filter / optimize-unions shapes)
-           LET t == Rnd(Mix(sd, 5), NT) + 1
-               br(k) == [op |-> "filter", p |-> FilterPred(Schemas[t], Mix(sd, 10 + k)), src |-> [op |-> "scan", t |-> t]]
-               u2 == [op |-> "setop", f |-> "union", all |-> Chance(40, Mix(sd, 6)), l |-> br(1), r |-> br(2)] IN
-           [p |-> IF Chance(30, Mix(sd, 7)) THEN [op |-> "setop", f |-> "union", all |-> u2.all, l |-> u2, r |-> br(3)] ELSE u2,
+           \* UNION [ALL] of 2-3 filters over the same table, every branch with the same select list
+           \* (unions-to-filter / optimize-unions shapes)
+           LET t == Rnd(MixS(sd, 5), NT) + 1 IN
+           [p |-> [op |-> "ufilter", t |-> t, all |-> Chance(35, MixS(sd, 6)), wrap |-> Chance(40, MixS(sd, 8)),
+                   ps |-> [k \in 1..(IF Chance(30, MixS(sd, 7)) THEN 3 ELSE 2) |-> FilterPred(Schemas[t], MixS(sd, 10 + k))]],
             sch |-> Schemas[t]]
       [] OTHER -> s
 
+\* Shape quota: every second case forces the operator at the top of the plan body (and for some a LIMIT at the root),
+\* cycling through Focus, so that every rewrite-relevant shape occurs in every run by construction.
+Focus == << [c |-> 23, lim |-> 0], [c |-> 24, lim |-> 0], [c |-> 25, lim |-> 0], [c |-> 26, lim |-> 0], [c |-> 27, lim |-> 0],
+            [c |-> 28, lim |-> 0], [c |-> 29, lim |-> 0], [c |-> 30, lim |-> 0], [c |-> 31, lim |-> 0], [c |-> 32, lim |-> 0],
+            [c |-> 22, lim |-> 0], [c |-> 33, lim |-> 0], [c |-> 34, lim |-> 0], [c |-> 35, lim |-> 0], [c |-> 28, lim |-> 2],
+            [c |-> 36, lim |-> 0], [c |-> 37, lim |-> 0], [c |-> 38, lim |-> 0], [c |-> 39, lim |-> 0], [c |-> 40, lim |-> 0],
+            [c |-> 42, lim |-> 0], [c |-> 44, lim |-> 0], [c |-> 45, lim |-> 0], [c |-> 46, lim |-> 0], [c |-> 36, lim |-> 1],
+            [c |-> 38, lim |-> 3], [c |-> 44, lim |-> 1], [c |-> 47, lim |-> 0], [c |-> 47, lim |-> 1],
+            \* LIMIT over every node type: filter, project, join, aggregate, distinct, set operation, window, sort+limit, lateral, grouping sets
+            [c |-> 3, lim |-> 1], [c |-> 6, lim |-> 1], [c |-> 8, lim |-> 1], [c |-> 14, lim |-> 1], [c |-> 18, lim |-> 1],
+            [c |-> 20, lim |-> 1], [c |-> 23, lim |-> 1], [c |-> 29, lim |-> 1], [c |-> 24, lim |-> 1], [c |-> 26, lim |-> 1],
+            [c |-> 22, lim |-> 1], [c |-> 31, lim |-> 1],
+            \* ORDER BY + LIMIT (top-k) over join / aggregate / window / union
+            [c |-> 8, lim |-> 2], [c |-> 14, lim |-> 2], [c |-> 23, lim |-> 2], [c |-> 22, lim |-> 2] >>
+FocusOf(id) == IF Has("focus") /\ id % 2 = 0 THEN Focus[((id \div 2) % Len(Focus)) + 1] ELSE [c |-> 0, lim |-> 0]
+
 \* optional ORDER BY / LIMIT at the root only (more often than PlanGen: limit pushdown acts here)
-GenRootS(sd) ==
-  LET s == GenS(DEPTH, Mix(sd, 1))
+GenRootF(sd, fo) ==
+  LET s == GenSC(DEPTH, MixS(sd, 1), fo.c)
       w == Len(s.sch)
-      keys == [j \in 1..(Rnd(Mix(sd, 2), IF w < 2 THEN w ELSE 2) + 1) |->
-                 [i |-> Rnd(Mix(sd, 10 + j), w) + 1, asc |-> Chance(50, Mix(sd, 20 + j)), nf |-> Chance(50, Mix(sd, 30 + j))]]
-      sorted == IF Has("sort") /\ Chance(35, Mix(sd, 3)) THEN [op |-> "sort", keys |-> keys, src |-> s.p] ELSE s.p
-      limited == IF Has("limit") /\ Chance(35, Mix(sd, 4))
-                   THEN [op |-> "limit", skip |-> Rnd(Mix(sd, 5), 3), fetch |-> PickSeq(<<0 - 1, 0, 1, 2, 3, 1, 2>>, Mix(sd, 6)), src |-> sorted]
+      keys == [j \in 1..(Rnd(MixS(sd, 2), IF w < 2 THEN w ELSE 2) + 1) |->
+                 [i |-> Rnd(MixS(sd, 10 + j), w) + 1, asc |-> Chance(50, MixS(sd, 20 + j)), nf |-> Chance(50, MixS(sd, 30 + j))]]
+      sorted == IF Has("sort") /\ (fo.lim = 2 \/ (fo.lim = 0 /\ Chance(35, MixS(sd, 3)))) THEN [op |-> "sort", keys |-> keys, src |-> s.p] ELSE s.p
+      limited == IF Has("limit") /\ fo.lim = 3
+                   THEN [op |-> "limit", skip |-> 0, fetch |-> PickSeq(<<0, 0 - 1>>, MixS(sd, 6)),
+                         src |-> IF Has("sort") THEN [op |-> "sort", keys |-> <<keys[1], keys[1]>>, src |-> s.p] ELSE s.p]
+                 ELSE IF Has("limit") /\ (fo.lim > 0 \/ Chance(35, MixS(sd, 4)))
+                   THEN [op |-> "limit", skip |-> Rnd(MixS(sd, 5), 3), fetch |-> PickSeq(<<0 - 1, 0, 1, 2, 3, 1, 2>>, MixS(sd, 6)), src |-> sorted]
                    ELSE sorted IN
   [p |-> limited, sch |-> s.sch]
+GenRootS(sd) == GenRootF(sd, [c |-> 0, lim |-> 0])
 
 UniverseOf(p, db) ==
   IF p.op = "limit" THEN EvalPlan(IF p.src.op = "sort" THEN p.src.src ELSE p.src, <<>>, db).rows ELSE <<>>
 
+\* universe / expectation under the engine's reading of INTERSECT ALL / EXCEPT ALL (Rel.AltPlan): a result that differs from
+\* `expect` but is allowed by `expect_alt` / `universe_alt` shows exactly the recorded defect setop-all-evaluated-as-semi-anti-join
 CaseOf(id, ps, ds) ==
-  LET plan == GenRootS(ps)
+  LET plan == GenRootF(ps, FocusOf(id))
+      alt == AltPlan(plan.p)
       db == GenDB(ds)
       more == [k \in 1..NDB |->
-                 LET dsk == Mix(ds, 1000 + k)  dbk == GenDB(dsk) IN
-                 [dbseed |-> dsk, db |-> dbk, expect |-> EvalPlan(plan.p, <<>>, dbk), universe |-> UniverseOf(plan.p, dbk)]] IN
+                 LET dsk == MixS(ds, 1000 + k)  dbk == GenDB(dsk) IN
+                 [dbseed |-> dsk, db |-> dbk, expect |-> EvalPlan(plan.p, <<>>, dbk), universe |-> UniverseOf(plan.p, dbk),
+                  expect_alt |-> EvalPlan(alt, <<>>, dbk), universe_alt |-> UniverseOf(alt, dbk)]] IN
   [id |-> id, dbseed |-> ds, planseed |-> ps, db |-> db, schemas |-> Schemas,
    plan |-> plan.p, schema |-> plan.sch, mode |-> Mode(plan.p), expect |-> EvalPlan(plan.p, <<>>, db),
-   universe |-> UniverseOf(plan.p, db), dbs |-> more]
+   universe |-> UniverseOf(plan.p, db), expect_alt |-> EvalPlan(alt, <<>>, db), universe_alt |-> UniverseOf(alt, db), dbs |-> more]
 
 EmitS == PrintT(<<"CASE", ToJson(CaseOf(n, planseed, dbseed))>>)
 =============================================================================
